@@ -22,6 +22,8 @@ class RecSocket(object):
         self.sent.append(bytes(data))
 
     def recv(self, n):
+        if n <= 0:
+            return b''
         k = n if self.rng is None else self.rng.randrange(1, n + 1)
         out = self.incoming[self.pos:self.pos + k]
         self.pos += len(out)
@@ -375,20 +377,42 @@ def run(run):
         got_in = []
         po = 0
         # interleave the two directions
-        while outs or ins:
-            if outs and (not ins or rng.random() < 0.5):
-                k = outs.pop(0)
-                sock.send(plain_out[po:po + k])
-                po += k
-            else:
+        raised = None
+        while (outs or ins) and raised is None:
+            try:
+                if outs and (not ins or rng.random() < 0.5):
+                    k = outs.pop(0)
+                    sock.send(plain_out[po:po + k])
+                    po += k
+                    continue
                 k = ins.pop(0)
                 want = k
+                if i % 4 == 3 and rng.random() < 0.3:
+                    # an empty piece is a legal part of a split: a zero-
+                    # length read in mid-stream returns nothing and changes
+                    # nothing
+                    empty = sock.recv(0) if via_socket else fobj.read(0)
+                    run.count('zero_length_reads')
+                    if empty:
+                        got_in.append(empty)
+                    if rng.random() < 0.5:
+                        sock.send(b'')
                 while want > 0:
                     chunk = sock.recv(want) if via_socket else fobj.read(want)
                     if not chunk:
                         break
                     got_in.append(chunk)
                     want -= len(chunk)
+            except Exception as e:
+                raised = e
+        if raised is not None:
+            run.violation('cfb8/raised:%s' % type(raised).__name__, 'a send/'
+                          'recv/read call on the cipher wrappers raised in '
+                          'the middle of a well-formed stream', {
+                              'secret': secret, 'mode': mode,
+                              'via': 'recv' if via_socket else 'file read',
+                              'error': repr(raised)})
+            continue
         got_out = b''.join(raw_sock.sent)
         run.case((secret, size_out, size_in, mode, via_socket))
         run.count('bytes_encrypted', size_out)
@@ -511,4 +535,5 @@ def run(run):
     run.require('bytes_encrypted', 1000)
     run.require('bytes_decrypted', 1000)
     run.require('rsa_handovers', 2)
+    run.require('zero_length_reads', 3)
     run.require('concurrent_keys.handovers', 10)
